@@ -877,6 +877,7 @@ type callerVal struct {
 	caller *ssa.Function
 	site   ssa.CallInstruction
 	val    ssa.Value
+	at     ssa.Instruction // where facts about val are evaluated when there is no call site (a construction)
 }
 
 // callerValues: what the in-package static call sites of the unexported function that owns
@@ -917,7 +918,7 @@ func callerValues(p *ssa.Parameter, field int) (out []callerVal, ok bool) {
 			}
 			arg = fv
 		}
-		out = append(out, callerVal{e.Caller.Func, e.Site, arg})
+		out = append(out, callerVal{caller: e.Caller.Func, site: e.Site, val: arg})
 	}
 	return out, true
 }
@@ -1108,4 +1109,91 @@ func realInEdges(fn *ssa.Function) []*callgraph.Edge {
 		out = append(out, e)
 	}
 	return out
+}
+
+// constructionValues: the struct invariant "field F of T is whatever its constructions put
+// there".  For an unexported field of a struct type of the package: every store into the field
+// anywhere in the package must be the field-wise initialisation of a local (a composite
+// literal), every local of type T that is not a parameter's spill slot must initialise the
+// field, and no value of type T is created any other way (zero values in containers are not
+// tracked: T must not be the element/field type of another package type).  Returns the stored
+// values with the store as the "site" to evaluate dominating facts at.
+func constructionValues(recvT types.Type, field int) (out []callerVal, ok bool) {
+	n, isNamedT := deref(recvT).(*types.Named)
+	if !isNamedT || curWorld == nil {
+		return nil, false
+	}
+	st, isStruct := n.Underlying().(*types.Struct)
+	if !isStruct || field >= st.NumFields() || st.Field(field).Exported() {
+		return nil, false
+	}
+	key := fmt.Sprintf("%s#%d", n.Obj().Name(), field)
+	if m, done := constructionMemo[key]; done {
+		return m.vals, m.ok
+	}
+	defer func() { constructionMemo[key] = struct {
+		vals []callerVal
+		ok   bool
+	}{out, ok} }()
+	ok = true
+	for _, fn := range curWorld.pkgFuncs() {
+		instrsOf(fn, func(in ssa.Instruction) {
+			if !ok {
+				return
+			}
+			switch x := in.(type) {
+			case *ssa.Alloc:
+				if !types.Identical(deref(x.Type()), n) {
+					return
+				}
+				if spilledStructParam(x) {
+					return
+				}
+				if w := wholeStructStore(x); w != nil {
+					// assigned from another T value (a call result, a copy): that value was constructed elsewhere
+					return
+				}
+				s := localFieldStore(x, field)
+				if s == nil {
+					ok = false
+					return
+				}
+				out = append(out, callerVal{caller: fn, val: s.Val})
+				out[len(out)-1].at = s
+			case *ssa.Store:
+				fa, isFA := x.Addr.(*ssa.FieldAddr)
+				if !isFA || fa.Field != field || !types.Identical(deref(fa.X.Type()), n) {
+					return
+				}
+				if _, isLocal := fa.X.(*ssa.Alloc); !isLocal {
+					ok = false // the field is assigned through a pointer after construction
+				}
+			}
+		})
+	}
+	if len(out) == 0 {
+		ok = false
+	}
+	return out, ok
+}
+
+var constructionMemo = map[string]struct {
+	vals []callerVal
+	ok   bool
+}{}
+
+// spilledStructParam: the local is the slot go/ssa copies a struct parameter (value receiver)
+// into: its only whole store is of a parameter.
+func spilledStructParam(al *ssa.Alloc) bool {
+	if al.Referrers() == nil {
+		return false
+	}
+	for _, ref := range *al.Referrers() {
+		if s, ok := ref.(*ssa.Store); ok && s.Addr == ssa.Value(al) {
+			if _, isP := s.Val.(*ssa.Parameter); isP {
+				return true
+			}
+		}
+	}
+	return false
 }
